@@ -100,8 +100,13 @@ theorem run_accumulates {c : Cfg} (w : WF c) (i lo hi m : Nat) (sh : Nat → Boo
     Done c i lo hi (runFilter c ts (qlen - c.k + 1) qlen) :=
   run_complete w i lo hi m sh tstar ts qlen hk2 hkt hq hqe hs he hthr hm1 hD hband hhiq hhi
 
-/-- **C14, the property** (for the model of the repaired code): for any target (invalid letters
-    allowed) and any query over the four-letter alphabet (either case), any supported word size `k`
+/-- **C14, the property** (for the model of the repaired code): for any target and any query —
+    the property is stated for sequences over the four-letter alphabet (either case); since the
+    ticker follows the query position (`Rule.tickByPosition`, fix `0c69d0c`) the theorem no longer
+    needs that: letters outside the alphabet are allowed in both sequences and count as mismatches
+    in `EpsMatch`, so every window pair with at most `e` columns that differ *or* hold such a letter
+    is covered (the first-wave hypothesis `AllValid lk q` is gone; `filter_incomplete_ticker` shows
+    it was needed for the callback-counting ticker) —, any supported word size `k`
     (`MinKmerLen ≤ k ≤ MaxKmerLen`, target of at least `k+1` letters), match length `n`, error bound
     `e` and tube offset `off ≥ max e 1` whose q-gram threshold `n + 1 - k(e+1)` is positive: the index
     is built, and whenever `Filter` returns its hits, every pair of length-`n` windows differing by at
@@ -111,7 +116,7 @@ theorem run_accumulates {c : Cfg} (w : WF c) (i lo hi m : Nat) (sh : Nat → Boo
     against `filter.Filter`; the rule is the one regenerated from the source (`rule_tie`). -/
 theorem filter_complete {lk : Lookup} (hlk : FourLetter lk) (t q : List UInt8) (k n e off : Nat)
     (selfAlign : Bool) (hk : Biogo.Kmer.minKmerLen ≤ k) (hk' : k ≤ Biogo.Kmer.maxKmerLen)
-    (ht : k + 1 ≤ t.length) (hq : AllValid lk q)
+    (ht : k + 1 ≤ t.length)
     (hthr : 0 < minWordsPerFilterHit n k e) (he : e ≤ off) (hoff : 1 ≤ off) :
     (∃ ix0, Biogo.Kmer.new lk 4 k t = .ok ix0 ∧ Biogo.Kmer.build lk ix0 = builtIndex lk k t) ∧
     ∀ hits, filter Biogo.Generated.FilterFacts.rule lk (builtIndex lk k t)
@@ -126,10 +131,61 @@ theorem filter_complete {lk : Lookup} (hlk : FourLetter lk) (t q : List UInt8) (
     rw [if_neg (by omega), if_neg (by omega), if_neg (by omega), if_neg (by omega)]
   · intro hits hf a b hm hreq
     rw [rule_tie] at hf
-    obtain ⟨hits', hf', hcov⟩ := filter_complete_aux hlk t q k n e off selfAlign hk1.1 hk1.2 (by omega) hq hthr he hoff a b hm hreq
+    obtain ⟨hits', hf', hcov⟩ := filter_complete_aux hlk t q k n e off selfAlign false hk1.1 hk1.2 (by omega) hthr he hoff a b hm hreq
     rw [hf] at hf'
     cases hf'
     exact hcov
+
+/-- **C14 on the complement strand** (`complement = true`, the second pass of `PALS.Align`): same
+    parameter ranges as `filter_complete`, the query being whatever the caller hands over (PALS: the
+    reverse complement of the query).  Without self comparison the flag has no effect and every
+    ε-match is covered.  In a self comparison the filter cuts the common k-mers below the
+    anti-diagonal (`q < Tlen - t`), and every ε-match that lies on or above it — `Tlen ≤ a + b`, i.e.
+    none of its k-mers is cut — is covered by a reported hit.  For `q = revcomp t` each pair of
+    regions appears twice, mirrored about the anti-diagonal, and of a pair of disjoint regions
+    exactly one image satisfies `Tlen ≤ a + b` (`C14_checker.requiredC_mirror`): every inverted
+    repeat with disjoint arms is found, once. -/
+theorem filter_complete_complement {lk : Lookup} (hlk : FourLetter lk) (t q : List UInt8) (k n e off : Nat)
+    (selfAlign : Bool) (hk : Biogo.Kmer.minKmerLen ≤ k) (hk' : k ≤ Biogo.Kmer.maxKmerLen)
+    (ht : k + 1 ≤ t.length)
+    (hthr : 0 < minWordsPerFilterHit n k e) (he : e ≤ off) (hoff : 1 ≤ off) :
+    ∀ hits, filter Biogo.Generated.FilterFacts.rule lk (builtIndex lk k t)
+        { minMatch := n, maxError := e, tubeOffset := off } q selfAlign true = .ok hits →
+      ∀ a b, EpsMatch lk t q n e a b → (selfAlign = true → t.length ≤ a + b) →
+        Covered (hits.map toSpec) (off + e) n a b := by
+  have hk1 : 2 ≤ k ∧ 2 * k ≤ Biogo.Kmer.wordBits := by
+    unfold Biogo.Kmer.minKmerLen at hk; unfold Biogo.Kmer.maxKmerLen at hk'; unfold Biogo.Kmer.wordBits; omega
+  intro hits hf a b hm hreq
+  rw [rule_tie] at hf
+  have hreq' : requiredC selfAlign true t.length a b = true := by
+    unfold requiredC
+    cases selfAlign with
+    | false => rfl
+    | true => simpa using hreq rfl
+  obtain ⟨hits', hf', hcov⟩ := filter_complete_aux hlk t q k n e off selfAlign true hk1.1 hk1.2 (by omega) hthr he hoff a b hm hreq'
+  rw [hf] at hf'
+  cases hf'
+  exact hcov
+
+/-- both strands in one statement, in the form the driver's checker evaluates it
+    (`C14_checker.checker_iff_strand`): whatever the two flags, every ε-match required on that strand
+    (`requiredC`) is covered. -/
+theorem filter_complete_strand {lk : Lookup} (hlk : FourLetter lk) (t q : List UInt8) (k n e off : Nat)
+    (selfAlign complement : Bool) (hk : Biogo.Kmer.minKmerLen ≤ k) (hk' : k ≤ Biogo.Kmer.maxKmerLen)
+    (ht : k + 1 ≤ t.length)
+    (hthr : 0 < minWordsPerFilterHit n k e) (he : e ≤ off) (hoff : 1 ≤ off) :
+    ∀ hits, filter Biogo.Generated.FilterFacts.rule lk (builtIndex lk k t)
+        { minMatch := n, maxError := e, tubeOffset := off } q selfAlign complement = .ok hits →
+      ∀ a b, EpsMatch lk t q n e a b → requiredC selfAlign complement t.length a b = true →
+        Covered (hits.map toSpec) (off + e) n a b := by
+  have hk1 : 2 ≤ k ∧ 2 * k ≤ Biogo.Kmer.wordBits := by
+    unfold Biogo.Kmer.minKmerLen at hk; unfold Biogo.Kmer.maxKmerLen at hk'; unfold Biogo.Kmer.wordBits; omega
+  intro hits hf a b hm hreq
+  rw [rule_tie] at hf
+  obtain ⟨hits', hf', hcov⟩ := filter_complete_aux hlk t q k n e off selfAlign complement hk1.1 hk1.2 (by omega) hthr he hoff a b hm hreq
+  rw [hf] at hf'
+  cases hf'
+  exact hcov
 
 /-! ### refutation of the full statement for the rules of the pinned tree -/
 
@@ -160,8 +216,57 @@ theorem filter_incomplete_flush :
     misses { retireSubMaxError := true, flushFromLastTick := false } 4 4 0 2 [99, 97, 97, 99, 99] [97, 99, 97, 97, 99, 97, 97, 97, 99, 97] 0 1 = true := by
   decide +kernel
 
+/-- `filter_incomplete` (ticker; outside the quantifier of C14, which is stated over A,C,G,T): with
+    the callback-counting ticker of the first wave (`tickByPosition := false`, both other repairs in
+    place) a query with letters outside the alphabet loses matches — `k=4 n=7 e=0 off=5`, target
+    `cttacta`, query `cttactaaaacnn`: the two last windows get no callback, the tick that retires
+    tube 1 never comes, the final flush starts beyond it and reports the run of the exact match at
+    `a=0 b=0` under the aliased index 4 (the `fln` witness of `corpus/C14.txt`, shrunk). -/
+theorem filter_incomplete_ticker :
+    EpsMatch dna [99, 116, 116, 97, 99, 116, 97] [99, 116, 116, 97, 99, 116, 97, 97, 97, 97, 99, 110, 110] 7 0 0 0 ∧
+    misses { retireSubMaxError := true, flushFromLastTick := true, tickByPosition := false } 4 7 0 5
+      [99, 116, 116, 97, 99, 116, 97] [99, 116, 116, 97, 99, 116, 97, 97, 97, 97, 99, 110, 110] 0 0 = true ∧
+    misses repaired 4 7 0 5
+      [99, 116, 116, 97, 99, 116, 97] [99, 116, 116, 97, 99, 116, 97, 97, 97, 97, 99, 110, 110] 0 0 = false := by
+  decide +kernel
+
 -- the same two inputs are covered under the repaired rule (as `filter_complete` says they must be)
 example : misses repaired 4 13 1 8 [116, 116, 97, 103, 103, 97, 99, 99, 99, 103, 103, 116, 116, 103, 99, 103, 116, 116, 99, 99] [97, 99, 99, 99, 103, 103, 99, 116, 103, 99, 103, 116, 116, 99, 116, 116, 103, 116, 97, 116, 103, 103, 99, 116, 103, 97, 103, 97] 5 0 = false ∧ misses repaired 4 4 0 2 [99, 97, 97, 99, 99] [97, 99, 97, 97, 99, 97, 97, 97, 99, 97] 0 1 = false := by
+  decide +kernel
+
+/-- **the ticker repair is conservative inside the property's quantifier**: for a query over the
+    four-letter alphabet (every k-mer position has a callback) the model of the first wave's code —
+    the ticker a countdown of callbacks — and the model of the repaired code — the ticker following
+    the query position, rule regenerated from the source — return the same result of `Filter`,
+    errors included, for every index, parameters `e ≤ off`, `1 ≤ off` and both flags.  (With letters
+    outside the alphabet they differ: `filter_incomplete_ticker`.) -/
+theorem ticker_repair_conservative {lk : Lookup} (hlk : FourLetter lk) (ix : Biogo.Kmer.Index) (p : Params)
+    (q : List UInt8) (selfAlign complement : Bool)
+    (hk : 1 ≤ ix.k) (hk2 : 2 * ix.k ≤ Biogo.Kmer.wordBits) (hq : AllValid lk q) (hkq : ix.k ≤ q.length)
+    (he : p.maxError ≤ p.tubeOffset) (hoff : 1 ≤ p.tubeOffset) :
+    filter { Biogo.Generated.FilterFacts.rule with tickByPosition := false } lk ix p q selfAlign complement =
+      filter Biogo.Generated.FilterFacts.rule lk ix p q selfAlign complement :=
+  filter_countdown_eq hlk _ (by rw [rule_tie]; rfl) ix p q selfAlign complement hk hk2 hq hkq he hoff
+
+/-! ### non-vacuity of the complement statement -/
+
+/-- `misses` with both flags -/
+def missesC (rule : Rule) (k n e off : Nat) (t q : List UInt8) (selfAlign complement : Bool) (a b : Nat) : Bool :=
+  match filter rule dna (builtIndex dna k t) { minMatch := n, maxError := e, tubeOffset := off } q selfAlign complement with
+  | .ok hits => !(hits.any fun h => covers (off + e) n (toSpec h) a b)
+  | .error _ => false
+
+-- `caacgttg` is its own reverse complement (`L = 8`); `k = n = 4`, `e = 0`, `off = 2`.  The exact
+-- matches are the five windows of the main diagonal.  `(4, 4)` lies on the anti-diagonal
+-- (`a + b = L`): required, and covered.  Its mirror image `(0, 0)` (the same pair of regions
+-- `[0,4)`, `[4,8)`) lies below: not required, and indeed cut — the pair is reported once.
+example :
+    EpsMatch dna [99, 97, 97, 99, 103, 116, 116, 103] [99, 97, 97, 99, 103, 116, 116, 103] 4 0 4 4 ∧
+    requiredC true true 8 4 4 = true ∧
+    missesC repaired 4 4 0 2 [99, 97, 97, 99, 103, 116, 116, 103] [99, 97, 97, 99, 103, 116, 116, 103] true true 4 4 = false ∧
+    EpsMatch dna [99, 97, 97, 99, 103, 116, 116, 103] [99, 97, 97, 99, 103, 116, 116, 103] 4 0 0 0 ∧
+    requiredC true true 8 0 0 = false ∧
+    missesC repaired 4 4 0 2 [99, 97, 97, 99, 103, 116, 116, 103] [99, 97, 97, 99, 103, 116, 116, 103] true true 0 0 = true := by
   decide +kernel
 
 end Biogo.Properties.C14
